@@ -223,7 +223,7 @@ func genArgvLoose(r *Rng, d *DeclSpec, n int) []string {
 var adversarialTokens = []string{
 	"", "-", "--", "---", "---x", "-=", "--=", "-x=", "=", "==", "-=x", "--=x", "\"", "\"abc", "\"abc\"", "\"a\\", "-\"", "--\"x\"",
 	"-é", "-世x", "-\xff", "-a\xffb", "--\xff", "-é=1", "--é=\"", "-ß世", "- ", "-- ", " -a", "-\x00", "--\x00=\x00", "-a=", "--a=", "-ab=c",
-	"-1", "-1.5", "--1", "-.5", "-.", "-..", "-1.", "-1e", "-e", "+1", "0x10", "-0", "--no-", "-a-b", "-a--", "--a--b", "-\t", "-\n", "--help=1", "-h=1", "-hh", "--help--",
+	"-1", "-1.5", "--1", "-.5", "-.", "-..", "-1.", "-1e", "-e", "+1", "%s", "--100%s", "-%d", "5%d", "%!s(MISSING)", "--%v=%v", "100%", "%%", "0x10", "-0", "--no-", "-a-b", "-a--", "--a--b", "-\t", "-\n", "--help=1", "-h=1", "-hh", "--help--",
 }
 
 func genArgvAdversarial(r *Rng, d *DeclSpec, n int) []string {
@@ -242,7 +242,7 @@ func genArgvAdversarial(r *Rng, d *DeclSpec, n int) []string {
 				if oi.LongFull == "" || (oi.O.Short != "" && r.Bool()) {
 					pre = "-" + oi.O.Short
 				}
-				out = append(out, pre+r.Pick([]string{"", "=", "=\"", "=\"x", "=-", "=--", "é", "=\xff", "= ", "=\"a\"b"}))
+				out = append(out, pre+r.Pick([]string{"", "=", "=\"", "=\"x", "=-", "=--", "é", "=\xff", "= ", "=\"a\"b", "=5%d", "=%s%s", "=true", "=0"}))
 				if r.Bool() {
 					out = append(out, r.Pick(adversarialTokens))
 				} else if r.Bool() {
